@@ -8,3 +8,6 @@ import InToto.Properties.C19
 #print axioms InToto.C19.loaded_scheme_consistent
 #print axioms InToto.C19.facts_key_constants
 #print axioms InToto.C19.preimage_example
+#print axioms InToto.C19.same_preimage_same_description
+#print axioms InToto.C19.preimage_exists
+#print axioms InToto.C19.forms_same_identifier
